@@ -249,12 +249,42 @@ def run(ctx):
         ws = [c.bb for c in sb.calls() if c02.is_send(F, c)]
         return bool(ws) and sb.must_pass(ws)
 
-    for b in fin:
+    # emission bodies: those that send, plus in-scope bodies that call one of them (the emission may be split into helpers)
+    fin6 = list(fin)
+    for b_ in F.all_bodies(CR):
+        if not c02.in_scope(b_) or b_ in fin6 or b_.def_ in c02.send_bodies(F):
+            continue
+        callees = {sb.def_ for c_ in b_.calls() for sb in local_callee_bodies(F, c_) if sb in fin}
+        # a body that stitches several sending helpers together is the emission body proper (a plain caller of the one emission
+        # body is not)
+        if len(callees) >= 2:
+            fin6.append(b_)
+    called = {sb.def_ for b_ in fin6 for c_ in b_.calls() for sb in local_callee_bodies(F, c_) if sb in fin6 and sb is not b_}
+
+    def witness_flag(hb):
+        """hb returns (Ok of) a bool that is true only if a record was sent inside hb: returns True if so"""
+        if "bool" not in (hb.d.get("output") or ""):
+            return False
+        wbs = {c_.bb for c_ in hb.calls() if c02.is_send(F, c_)}
+        if not wbs:
+            return False
+        ok_any = False
+        for l_, ds in hb.defs().items():
+            if hb.local_ty(l_) != "bool" or not hb.local_name(l_):
+                continue
+            if not all(k == "assign" and not n["lhs"].get("p") and n["rv"]["k"] == "use" and "bool" in (op_const(n["rv"]["op"]) or {}) for k, bb_, j, n in ds):
+                continue
+            trues = [bb_ for k, bb_, j, n in ds if op_const(n["rv"]["op"])["bool"]]
+            if trues and all(bb_ in wbs or hb.must_pass(wbs, start=bb_) for bb_ in trues):
+                ok_any = True
+        return ok_any
+
+    for b in fin6:
         pr = Prov(b)
         key = fnkey(b)
         # emission sites of this body: the sends themselves and calls of local helpers that always send
         writes = [c for c in b.calls() if c02.is_send(F, c) or
-                  any(sb in fin and sb is not b and always_writes(sb) for sb in local_callee_bodies(F, c))]
+                  any(sb in fin6 and sb is not b and always_writes(sb) for sb in local_callee_bodies(F, c))]
         succ_exit = [i for i in b.live_blocks() for st in b.stmts(i) if st["k"] == "assign" and st["lhs"]["l"] == 0 and not st["lhs"].get("p")
                      and st["rv"]["k"] == "agg" and st["rv"].get("variant") == "Ok"]
         ctx.floor("R03.6", "success exits of the emission body", len(succ_exit), 1)
@@ -335,9 +365,20 @@ def run(ctx):
                           "the record without per-metric dimensions can be skipped on a successful path that does not pass the 'value buffer %s is empty' "
                           "outcome: values routed to it (for example no-metric values, which leave the directive empty) would appear nowhere" % sorted(val_global),
                           "every successful path around the write passes the empty-value-buffer edge")
-        # life sign: every successful path performs at least one write (string properties of an entry without metrics appear somewhere)
+        # life sign: every successful path performs at least one write (string properties of an entry without metrics appear somewhere);
+        # judged at the outermost emission body only - a helper may legitimately send nothing and say so in its result
+        if b.def_ in called:
+            continue
         wb = {w.bb for w in writes}
         flag_true_edges = set()
+        # a helper's boolean result that is true only if it sent a record is a write witness in the caller
+        for c_ in b.calls():
+            if any(sb in fin6 and witness_flag(sb) for sb in local_callee_bodies(F, c_)):
+                for l_ in range(len(b.locals)):
+                    if b.local_ty(l_) == "bool":
+                        o_ = pr.local(l_)
+                        if o_ and all(x[0] in ("via", "op") or (x[0] in ("call", "callf") and x[1] == c_.bb) for x in o_) and any(x[0] in ("call", "callf") for x in o_):
+                            flag_true_edges.update(true_edges(l_))
         for l, ds in defs.items():
             if b.local_ty(l) != "bool" or not b.local_name(l):
                 continue
